@@ -1,11 +1,26 @@
-"""C13 -- scheduling kernel scenarios judged by spec/hist/H_Exec.tla"""
-import exec_common
+"""C13 -- migration: scenarios 'migrate' / 'migrace' of d_kernel judged by H_Exec, the request protocol model MigProto,
+and migration into user-defined pools whose create_unit fails transiently (d_upool, judged by H_UnitMap)"""
+import exec_common, vlib
 PID = "C13"
 
 
+def pre(chk):
+    exec_common.mig_proto_model(chk)
+    quick = chk.tier == "quick"
+    # an accepted request is performed exactly once also when the target pool's create_unit fails at first:
+    # the request stays pending and is retried, the callback runs once, in the requested pool
+    vlib.history_check(chk, "d_upool", ["umap"], "H_UnitMap", quick, chk.seed, nseeds_quick=80, nseeds_thorough=1000,
+                       optsets=[("nes=0", "coll=1", "fail=1", "csched=0"), ("nes=1", "coll=1", "fail=1", "csched=0")], free_runs=0,
+                       what="migration into a user-defined pool (create_unit failing transiently): request lost, callback not exactly once per performed migration, or unit map inconsistent",
+                       env={"ABTV_BUDGET": "1500000"})
+
+
 def run(tier, seed):
-    return exec_common.run_exec(PID, tier, seed, 5, scns=("migrate", "migrace"), pre=exec_common.mig_proto_model)
+    return exec_common.run_exec(PID, tier, seed, 5, scns=("migrate", "migrace"), pre=pre)
 
 
 def replay(path):
+    evs = vlib.read_ndjson(path)
+    if evs and evs[0].get("drv") == "d_upool":
+        return vlib.generic_replay(PID, "H_UnitMap", path)
     return exec_common.replay_exec(PID, path)
